@@ -328,5 +328,133 @@ theorem AONF_flatten (n : Nat) (e e' : Exp α) (h : flattenF n e = some e') (he 
     (by intro op a b; simp [AONF]) (by intro e; simp [AONF]) (by simp) (by simp)
     (by intro op h; cases op <;> simp_all [isAddSub]) n e e' h he
 
+/-! ### every foldable constant has been folded -/
+
+def isZeroLit : Exp α → Bool
+  | .num z => Arith.eq z zero
+  | _ => false
+
+mutual
+/-- no operator node all of whose operands are literals (except a division by the literal zero, which is
+kept on purpose); n-ary and/or nodes have at least two operands; no empty-or-literal-only min/max other than
+the empty one. -/
+def constFolded : Exp α → Bool
+  | .num _ => true
+  | .var _ => true
+  | .abs e => !(isNum e) && constFolded e
+  | .not e => !(isNum e) && constFolded e
+  | .un _ e => !(isNum e) && constFolded e
+  | .min es => (es.isEmpty || !(es.all isNum)) && constFoldedL es
+  | .max es => (es.isEmpty || !(es.all isNum)) && constFoldedL es
+  | .and es => decide (2 ≤ es.length) && !(es.all isNum) && constFoldedL es
+  | .or es => decide (2 ≤ es.length) && !(es.all isNum) && constFoldedL es
+  | .xor a b => !(isNum a && isNum b) && constFolded a && constFolded b
+  | .implies a b => !(isNum a && isNum b) && constFolded a && constFolded b
+  | .iff a b => !(isNum a && isNum b) && constFolded a && constFolded b
+  | .bin op a b => (!(isNum a && isNum b) || (op == .div && isZeroLit b)) && constFolded a && constFolded b
+def constFoldedL : List (Exp α) → Bool
+  | [] => true
+  | e :: es => constFolded e && constFoldedL es
+end
+
+theorem constFoldedL_iff (es : List (Exp α)) :
+    constFoldedL es = true ↔ ∀ e ∈ es, constFolded e = true := by
+  induction es with
+  | nil => simp [constFoldedL]
+  | cons e es ih => simp [constFoldedL, ih]
+
+theorem allNums_isSome_of_all {es : List (Exp α)} (h : es.all isNum = true) : (allNums es).isSome := by
+  induction es with
+  | nil => simp [allNums]
+  | cons e es ih =>
+    rw [List.all_cons, Bool.and_eq_true] at h
+    rcases isNum_cases e with h' | ⟨v, rfl⟩
+    · rw [h'] at h; cases h.1
+    · obtain ⟨ns, hns⟩ := Option.isSome_iff_exists.1 (ih h.2)
+      simp [allNums, hns]
+
+/-- an n-ary normal form is not made of literals only. -/
+theorem not_all_num_of_naryStep {isAnd : Bool} {es : List (Exp α)} (hs : naryStep isAnd es = some es)
+    (hl : 2 ≤ es.length) : es.all isNum = false := by
+  by_contra hc
+  have hall : es.all isNum = true := by simpa using hc
+  have hu : mayBeUndefinedAny es = false := by
+    by_contra hu
+    obtain ⟨x, hx, hxu⟩ := (mayBeUndefinedAny_iff es).1 (by simpa using hu)
+    have := List.all_eq_true.1 hall x hx
+    rcases isNum_cases x with h' | ⟨v, rfl⟩
+    · rw [h'] at this; cases this
+    · rw [mayBeUndefined_num] at hxu; cases hxu
+  unfold naryStep at hs
+  rw [hu] at hs
+  simp only [Bool.false_eq_true, if_false] at hs
+  have := naryScan_some hs
+  have hnil : es.filter (fun x => !isNum x) = [] := by
+    rw [List.filter_eq_nil_iff]; intro x hx; simpa using List.all_eq_true.1 hall x hx
+  rw [hnil] at this; subst this; simp at hl
+
+theorem constFolded_of_NF (e : Exp α) : NF e → constFolded e = true := by
+  induction e using Exp.ind with
+  | num v => intro _; simp [constFolded]
+  | var s => intro _; simp [constFolded]
+  | abs e ih => intro h; simp only [NF] at h; simp [constFolded, h.2, ih h.1]
+  | min es ih =>
+    intro h; simp only [NF, NFList_iff] at h
+    simp only [constFolded, Bool.and_eq_true, constFoldedL_iff]
+    rcases h with rfl | h
+    · simp
+    · refine ⟨?_, fun e he => ih e he (h.1 e he)⟩
+      by_cases hall : es.all isNum = true
+      · have := allNums_isSome_of_all hall; rw [h.2] at this; cases this
+      · simp [hall]
+  | max es ih =>
+    intro h; simp only [NF, NFList_iff] at h
+    simp only [constFolded, Bool.and_eq_true, constFoldedL_iff]
+    rcases h with rfl | h
+    · simp
+    · refine ⟨?_, fun e he => ih e he (h.1 e he)⟩
+      by_cases hall : es.all isNum = true
+      · have := allNums_isSome_of_all hall; rw [h.2] at this; cases this
+      · simp [hall]
+  | and es ih =>
+    intro h; simp only [NF, NFList_iff] at h
+    simp only [constFolded, Bool.and_eq_true, constFoldedL_iff]
+    exact ⟨⟨by simpa using h.2.2.2, by simp [not_all_num_of_naryStep h.2.2.1 h.2.2.2]⟩,
+      fun e he => ih e he (h.1 e he)⟩
+  | or es ih =>
+    intro h; simp only [NF, NFList_iff] at h
+    simp only [constFolded, Bool.and_eq_true, constFoldedL_iff]
+    exact ⟨⟨by simpa using h.2.2.2, by simp [not_all_num_of_naryStep h.2.2.1 h.2.2.2]⟩,
+      fun e he => ih e he (h.1 e he)⟩
+  | not e ih => intro h; simp only [NF] at h; simp [constFolded, h.2, ih h.1]
+  | xor a b iha ihb => intro h; simp only [NF] at h; simp [constFolded, h.2.2, iha h.1, ihb h.2.1]
+  | implies a b iha ihb => intro h; simp only [NF] at h; simp [constFolded, h.2.2, iha h.1, ihb h.2.1]
+  | iff a b iha ihb => intro h; simp only [NF] at h; simp [constFolded, h.2.2, iha h.1, ihb h.2.1]
+  | bin op a b iha ihb =>
+    intro h
+    have hnb := noBinLogic_of_NF _ h
+    simp only [NF] at h
+    simp only [constFolded, Bool.and_eq_true, iha h.1, ihb h.2.1, and_true]
+    rcases both_num_cases a b with hb | ⟨v, w, rfl, rfl⟩
+    · simp [hb]
+    · have hfix := h.2.2
+      cases op <;> simp [noBinLogic, arithOp] at hnb
+      · simp [binCore, addCore] at hfix
+      · simp [binCore, subCore] at hfix
+      · simp [binCore, mulCore] at hfix
+      · simp only [binCore, divCore] at hfix
+        split at hfix
+        · rename_i hz; simp [isZeroLit, hz]
+        · simp at hfix
+  | un op e ih =>
+    intro h
+    cases op with
+    | neg => simp only [NF] at h; simp [constFolded, h.2, ih h.1]
+    | not => simp only [NF] at h
+
+/-- `simplify` folds every foldable constant — any input, any number type. -/
+theorem constFolded_simplify (e : Exp α) : constFolded (simplify e) = true :=
+  constFolded_of_NF _ (NF_simplify e)
+
 end Exp
 end Rooc
